@@ -4,6 +4,7 @@ import (
 	"encoding/json"
 	"errors"
 	"fmt"
+	"net/url"
 	"sort"
 	"strings"
 
@@ -344,6 +345,69 @@ func JudgeStore(r *vsched.Result) []string {
 		}
 		if res != want {
 			add("final value of %q is %s, the change callbacks say %s", id, res, want)
+		}
+	}
+	return out
+}
+
+func init() {
+	// IX1: queries racing with index maintenance up to the Flush (C13): M mutates, F (ordered after M's calls
+	// returned) flushes and queries; the result must reflect both mutations.
+	reg(&Scenario{Name: "IX1", Make: func(cfg Cfg) (func(), *Spec) {
+		sp := &Spec{Closes: -1, Index: true}
+		return func() {
+			ClearDB()
+			st := badgerstore.NewStore(DB)
+			qs := badgerstore.NewQueryStore(st, func(qs *badgerstore.QueryStore, q url.Values) (*badgerstore.IndexQuery, error) {
+				return &badgerstore.IndexQuery{Index: qs.Index("i"), Limit: -1}, nil
+			})
+			qs.AddIndex(badgerstore.Index{Name: "i", Key: func(v interface{}) []byte {
+				if s, ok := v.(map[string]interface{})["k"].(string); ok {
+					return []byte(s)
+				}
+				return nil
+			}})
+			ncb := 0
+			qs.OnQueryChange(func(qc store.QueryChange) {
+				ncb++
+				vsched.Emit(Mon, fmt.Sprintf("querychange %s", qc.ID()))
+			})
+			mdone := make(chan struct{}, 1)
+			done := make(chan struct{}, 2)
+			spawn("M", done, func() {
+				for i, id := range []string{"a", "b"} {
+					wt := st.Write(id)
+					wt.Create(map[string]interface{}{"k": fmt.Sprintf("k%d", i)})
+					wt.Close()
+				}
+				wt := st.Write("a")
+				wt.Update(map[string]interface{}{"k": "k9"})
+				wt.Close()
+				vsched.Send(mdone, struct{}{})
+			})
+			spawn("F", done, func() {
+				vsched.Recv(mdone)
+				qs.Flush()
+				res, err := qs.Query(nil)
+				vsched.Emit(Mon, fmt.Sprintf("afterflush %v %v callbacks=%d", res, err, ncb))
+			})
+			join(done, 2)
+		}, sp
+	}})
+}
+
+// JudgeIndex is the C13 oracle of IX1.
+func JudgeIndex(r *vsched.Result) []string {
+	var out []string
+	if r.Deadlock || r.Horizon {
+		return []string{"C13: execution did not finish: " + blockedString(r)}
+	}
+	for _, p := range r.Panics {
+		out = append(out, "C13: thread panicked: "+firstLines(p, 4))
+	}
+	for _, e := range r.Events {
+		if strings.HasPrefix(e.Text, "afterflush ") && e.Text != "afterflush [b a] <nil> callbacks=3" {
+			out = append(out, "C13: once Flush has returned the query must reflect every mutation made before it and all change callbacks must have run: got \""+e.Text+"\", want \"afterflush [b a] <nil> callbacks=3\"")
 		}
 	}
 	return out
